@@ -23,7 +23,9 @@
 #   * the legacy parameter `names` is absent (`absent`), `names = self.names` is skipped: the names only choose the LABELS of the columns, and
 #     the table is modelled as the column variables `ids, types, xs, ys, zs, rs, pid` keyed by the field (`tree_cols` of `dic`, `df`, `t`);
 #   * `names.r: 1` stores the SCALAR 1 (`rs : Int`): `DataFrame.from_dict` broadcasts it to every row;
-#   * `Tree.from_data_frame(df, names=names)` is the tree whose columns are the frame's columns (it converts nothing);
+#   * `Tree.from_data_frame(df, names=names)` is the tree over the frame's columns; `Tree.__init__` STORES x, y, z, r as float32 and id, type, pid as
+#     int32: the generated definition returns the columns BEFORE that cast (harness/props/c17.py compares the real tree's coordinates with the
+#     float32 cast of the generated ones);
 #   * the segment ends at the construction of the tree: the final `if self.sort: t = sort_tree(t)` is NOT part of the definition
 #     (`_sort_tree` is translated and proved separately: Gen/AlgoRedirect `sort_tree_`, Gen/AlgoCat `sort_tree6_`).
 MODULE_MODEL_IMPORTS["AlgoMstFront"] = ["PyMstFront"]
